@@ -4,7 +4,7 @@
 
    Model: the ATR section of model/CV.v + Transaction::create_rebroadcast_transaction +
    the rebroadcast-hash / slip-count / input validation and the ledger effects in
-   model/Supply.v, code as of /repo 92b2ed5, tied to the real code by harness/src/bin/c13.rs.
+   model/Supply.v, code as of /repo 9007b23, tied to the real code by harness/src/bin/c13.rs.
 
    For the block [b] added on the tip of [st]:
      leaving st b               the still-unspent outputs of the block with id  id(b) - genesis_period - 1
@@ -19,7 +19,7 @@
    becomes unspendable", "an output older than the window can no longer be spent" and "nothing is
    rebroadcast twice" hold without extra conditions on the block (the witnesses of the old
    refutations are refused now, the chain no longer halts when the multiplier exceeds 1, the age
-   test no longer overflows).  No open defect is known for 92b2ed5.  Outside the theorems (scope,
+   test no longer overflows).  No open defect is known for 9007b23.  Outside the theorems (scope,
    Known.clean): blocks whose expiring block carries Bound (NFT) outputs and blocks carrying Bound
    slips / SPV transactions — the triple grouping is modelled and replayed by the harness
    (nft-rebroadcast cases), not proved. *)
